@@ -8,6 +8,8 @@ import (
 	"encoding/json"
 	"fmt"
 	"os"
+	"os/exec"
+	"path/filepath"
 	"strings"
 	"sync"
 	"unicode/utf8"
@@ -213,6 +215,9 @@ func run(c *core.Ctx) {
 		}
 	})
 	runSequences(c)
+	if c.Shard == 0 {
+		racePass(c)
+	}
 	// (3) all ordered pairs of strings up to pairLen: purity across calls
 	var small []string
 	core.Explore(c, core.ExploreOpts{Bound: -1}, func(ch *core.Chooser, _ bool) {
@@ -239,6 +244,10 @@ func replay(c *core.Ctx, raw json.RawMessage) {
 		checkSeq(c, cs.Seq)
 		return
 	}
+	if unq(cs.S) == "free-running -race pass" {
+		racePass(c)
+		return
+	}
 	if cs.Before != "" {
 		checkPair(c, unq(cs.Before), unq(cs.S))
 		return
@@ -253,7 +262,7 @@ func init() {
 		Rule: "every string of <=N runes over a 13-symbol rune-class alphabet (lower, upper, digit, '_', '-', '.', space, non-ASCII lower/upper, title-case letter, non-ASCII digit, CJK, NBSP), every such string <=M runes with one invalid UTF-8 sequence inserted at every position, all ordered pairs of strings <=2 runes in one process, and every call sequence of length 2 (20 inputs) / 3 (6 inputs) / 2 with two different functions (6 inputs) executed in a FRESH process and compared with the single-call result of a fresh process; a case is non-trivial when Split yields more than one word; states = distinct (word count, word-class pattern) outcomes",
 		Assumptions: []string{
 			"the rune classes the code branches on (unicode.IsLower/IsUpper/IsDigit/IsLetter/IsGraphic, ASCII vs multi-byte) are each represented in the alphabet",
-			"purity is observed through return values of consecutive calls in one process",
+			"purity is observed through return values of consecutive calls in one process, of call sequences in fresh processes and - as a complement outside the exhaustive part - of concurrent callers under the race detector",
 		},
 	})
 }
@@ -415,4 +424,44 @@ func runSequences(c *core.Ctx) {
 	}
 	wg.Wait()
 	c.Sample(map[string]any{"fresh_process_sequence": fmtOps([]Op{{4, q("a_b")}, {4, q("b_a")}})})
+}
+
+// ---------------------------------------------------------------------------
+// complement: the same functions called from many goroutines under the race
+// detector (a pure function can be called concurrently; shared scratch state
+// that sequential histories cannot reveal shows as a data race or a wrong result)
+
+func racePass(c *core.Ctx) {
+	bin := filepath.Join(core.Root(), "bin", "vcheck-race")
+	if _, err := os.Stat(bin); err != nil {
+		c.Internal("race binary missing: %v", err)
+		return
+	}
+	cmd := exec.Command(bin, "worker", "c19race")
+	cmd.Env = append(os.Environ(), "GORACE=halt_on_error=1 exitcode=66", "GOMAXPROCS=8")
+	out, err := cmd.CombinedOutput()
+	c.Count("race_pass_runs", 1)
+	if err == nil {
+		return
+	}
+	ee, ok := err.(*exec.ExitError)
+	if ok && ee.ExitCode() == 66 {
+		_ = os.MkdirAll(filepath.Join(core.Root(), "replays"), 0o755)
+		rp := filepath.Join(core.Root(), "replays", "C19-race-report.txt")
+		_ = os.WriteFile(rp, out, 0o644)
+		c.Fail("", Case{S: q("free-running -race pass")}, "data race reported by the race detector with concurrent callers of the converters (report in %s):\n%s", rp, tailStr(string(out), 1500))
+		return
+	}
+	if ok && ee.ExitCode() == 1 {
+		c.Fail("", Case{S: q("free-running -race pass")}, "concurrent callers of the converters observed a wrong result or a panic:\n%s", tailStr(string(out), 1500))
+		return
+	}
+	c.Internal("race pass failed to run: %v\n%s", err, tailStr(string(out), 800))
+}
+
+func tailStr(s string, n int) string {
+	if len(s) > n {
+		return s[len(s)-n:]
+	}
+	return s
 }
